@@ -1,21 +1,35 @@
 // Driver for C06: runs the real TLCP record layer as a byte stream and writes
 // `case => observed` lines for the Lean oracle (model + spec).
 //
-// phase mps : maxPayloadSizeForWrite called directly on a hooked Conn (all counters).
-// phase loop: two hooked Conns with matching dummy keys (no handshake): the sender's real
-//             Write/CloseWrite produce the wire; the wire is re-chunked and fed to the
-//             receiver's real Read with cycling buffer sizes.
-// phase e2e : a real connection over an in-memory pipe for each of the four suites (full
-//             handshake or resumed session, client or server writing), then the same experiment
-//             through it (re-segmenting transport); with gate=1 the writer's last handshake
-//             flight is delivered together with its application records, so that the reader's
-//             handshake ends on transport reads that also carry application data.
+//   - phase mps: maxPayloadSizeForWrite called directly on a hooked Conn (all counters).
+//   - phase loop: two hooked Conns with matching dummy keys (no handshake): the sender's real
+//     Write/CloseWrite produce the wire; the wire is re-chunked and fed to the receiver's real
+//     Read with cycling buffer sizes.
+//   - phase e2e: a real connection over an in-memory pipe for each of the four suites (full
+//     handshake or resumed session, client or server writing), then the same experiment
+//     through it (re-segmenting transport); with gate=1 the writer's last handshake flight is
+//     delivered together with its application records, so that the reader's handshake ends on
+//     transport reads that also carry application data.
+//
+// Transport modes of the loop and e2e phases (optional tokens, omitted when 0):
+//
+//   - eof=1: the reader's transport reports end-of-stream TOGETHER with its last chunk (n > 0
+//     and io.EOF from one Read, which io.Reader allows) instead of by a separate empty Read.
+//   - last=<n>: the last chunk is the final n bytes of the stream; what comes before is cut by seg.
+//   - hc=1 w2=.. seg2=.. bufs2=..: half-close. The first writer calls CloseWrite after its writes
+//     and keeps reading; the peer reads to end-of-stream, writes w2 and closes; the half-closed
+//     side reads the response. eof/last then describe the response's transport.
+//
+// The transports keep deadlines the way a net.Conn does: a Read (Write) whose deadline has passed
+// fails with os.ErrDeadlineExceeded whether or not bytes are available.
 package main
 
 import (
+	"errors"
 	"fmt"
 	"io"
 	"net"
+	"os"
 	"strconv"
 	"strings"
 	"sync"
@@ -30,56 +44,165 @@ import (
 // ---------------------------------------------------------------------------
 // transports
 
-type base struct{}
-
-func (base) Close() error                       { return nil }
-func (base) LocalAddr() net.Addr                { return &net.TCPAddr{} }
-func (base) RemoteAddr() net.Addr               { return &net.TCPAddr{} }
-func (base) SetDeadline(t time.Time) error      { return nil }
-func (base) SetReadDeadline(t time.Time) error  { return nil }
-func (base) SetWriteDeadline(t time.Time) error { return nil }
-
-// recorder collects what the sender writes; it never has anything to read.
-type recorder struct {
-	base
-	writes [][]byte
+// mem is the transport of a hooked Conn (loop phase): it records what is written, hands out one
+// prepared chunk per Read, and keeps deadlines like a net.Conn.
+type mem struct {
+	writes   [][]byte
+	chunks   [][]byte
+	ended    bool // the peer has closed: end-of-stream after the chunks (otherwise a Read would block)
+	eofLast  bool // end-of-stream is reported together with the last chunk
+	rdl, wdl time.Time
 }
 
-func (r *recorder) Read(p []byte) (int, error) { return 0, io.EOF }
-func (r *recorder) Write(p []byte) (int, error) {
-	r.writes = append(r.writes, append([]byte(nil), p...))
+var errWouldBlock = errors.New("transport read would block: nothing more was sent")
+
+func expired(t time.Time) bool { return !t.IsZero() && !time.Now().Before(t) }
+
+func (m *mem) Close() error                       { return nil }
+func (m *mem) LocalAddr() net.Addr                { return &net.TCPAddr{} }
+func (m *mem) RemoteAddr() net.Addr               { return &net.TCPAddr{} }
+func (m *mem) SetDeadline(t time.Time) error      { m.rdl, m.wdl = t, t; return nil }
+func (m *mem) SetReadDeadline(t time.Time) error  { m.rdl = t; return nil }
+func (m *mem) SetWriteDeadline(t time.Time) error { m.wdl = t; return nil }
+
+func (m *mem) Read(p []byte) (int, error) {
+	if expired(m.rdl) {
+		return 0, os.ErrDeadlineExceeded
+	}
+	if len(p) == 0 {
+		return 0, nil
+	}
+	if len(m.chunks) == 0 {
+		if m.ended {
+			return 0, io.EOF
+		}
+		return 0, errWouldBlock
+	}
+	n := copy(p, m.chunks[0])
+	if n == len(m.chunks[0]) {
+		m.chunks = m.chunks[1:]
+	} else {
+		m.chunks[0] = m.chunks[0][n:]
+	}
+	if len(m.chunks) == 0 && m.ended && m.eofLast {
+		return n, io.EOF
+	}
+	return n, nil
+}
+
+func (m *mem) Write(p []byte) (int, error) {
+	if expired(m.wdl) {
+		return 0, os.ErrDeadlineExceeded
+	}
+	m.writes = append(m.writes, append([]byte(nil), p...))
 	return len(p), nil
 }
-func (r *recorder) all() []byte {
+
+func (m *mem) all() []byte {
 	var out []byte
-	for _, w := range r.writes {
+	for _, w := range m.writes {
 		out = append(out, w...)
 	}
 	return out
 }
 
-// chunked hands out one chunk per Read, then EOF.
-type chunked struct {
-	base
-	chunks [][]byte
+// tconn is the transport of a real connection (e2e phase): a pair.StreamEnd that keeps deadlines
+// like a net.Conn and, once armed, cuts what it delivers by seg/last and can report end-of-stream
+// together with the last chunk. All bytes of the armed stream are queued before the first armed Read.
+type tconn struct {
+	*pair.StreamEnd
+	mu        sync.Mutex
+	rdl, wdl  time.Time
+	armed     bool
+	seg       []int
+	i         int
+	remaining int // bytes of the armed stream not yet delivered
+	last      int
+	eofLast   bool
 }
 
-func (c *chunked) Read(p []byte) (int, error) {
-	if len(p) == 0 {
-		return 0, nil
-	}
-	if len(c.chunks) == 0 {
-		return 0, io.EOF
-	}
-	n := copy(p, c.chunks[0])
-	if n == len(c.chunks[0]) {
-		c.chunks = c.chunks[1:]
-	} else {
-		c.chunks[0] = c.chunks[0][n:]
-	}
-	return n, nil
+func wrap(e *pair.StreamEnd) *tconn {
+	t := &tconn{StreamEnd: e}
+	e.MaxRead = t.next
+	return t
 }
-func (c *chunked) Write(p []byte) (int, error) { return len(p), nil }
+
+func (t *tconn) arm(seg []int, total, last int, eofLast bool) {
+	if len(seg) == 0 {
+		seg = []int{512}
+	}
+	t.mu.Lock()
+	t.armed, t.seg, t.i, t.remaining, t.last, t.eofLast = true, seg, 0, total, last, eofLast
+	t.mu.Unlock()
+}
+
+// next is the StreamEnd's MaxRead: the size of the chunk the coming Read returns
+func (t *tconn) next(avail int) int {
+	t.mu.Lock()
+	defer t.mu.Unlock()
+	if !t.armed {
+		return avail
+	}
+	if t.last > 0 && t.remaining <= t.last {
+		return t.remaining
+	}
+	v := t.seg[t.i%len(t.seg)]
+	t.i++
+	if t.last > 0 && v > t.remaining-t.last {
+		v = t.remaining - t.last
+	}
+	return v
+}
+
+func (t *tconn) Read(p []byte) (int, error) {
+	t.mu.Lock()
+	rdl := t.rdl
+	t.mu.Unlock()
+	if expired(rdl) {
+		return 0, os.ErrDeadlineExceeded
+	}
+	n, err := t.StreamEnd.Read(p)
+	t.mu.Lock()
+	if t.armed && n > 0 {
+		t.remaining -= n
+		if t.eofLast && t.remaining == 0 && err == nil {
+			err = io.EOF
+		}
+	}
+	t.mu.Unlock()
+	return n, err
+}
+
+func (t *tconn) Write(p []byte) (int, error) {
+	t.mu.Lock()
+	wdl := t.wdl
+	t.mu.Unlock()
+	if expired(wdl) {
+		return 0, os.ErrDeadlineExceeded
+	}
+	return t.StreamEnd.Write(p)
+}
+
+func (t *tconn) SetDeadline(d time.Time) error {
+	t.mu.Lock()
+	t.rdl, t.wdl = d, d
+	t.mu.Unlock()
+	return t.StreamEnd.SetReadDeadline(d)
+}
+
+func (t *tconn) SetReadDeadline(d time.Time) error {
+	t.mu.Lock()
+	t.rdl = d
+	t.mu.Unlock()
+	return t.StreamEnd.SetReadDeadline(d)
+}
+
+func (t *tconn) SetWriteDeadline(d time.Time) error {
+	t.mu.Lock()
+	t.wdl = d
+	t.mu.Unlock()
+	return nil
+}
 
 func chunkBy(pat []int, w []byte) [][]byte {
 	ok := len(pat) > 0
@@ -101,6 +224,18 @@ func chunkBy(pat []int, w []byte) [][]byte {
 		w = w[n:]
 	}
 	return out
+}
+
+// chunksOf: seg cycled; with last > 0 the final `last` bytes form the last chunk
+func chunksOf(pat []int, last int, w []byte) [][]byte {
+	if last <= 0 || len(w) == 0 {
+		return chunkBy(pat, w)
+	}
+	if last > len(w) {
+		last = len(w)
+	}
+	k := len(w) - last
+	return append(chunkBy(pat, w[:k]), w[k:])
 }
 
 // ---------------------------------------------------------------------------
@@ -198,7 +333,7 @@ func readLoop(c net.Conn, bufs []int, total int) (string, []byte) {
 
 func execMps(desc string) string {
 	kind, _ := hx.KV(desc, "kind")
-	c := tlcp.VerifStreamConn(&recorder{}, kindNum(kind), hx.KVInt(desc, "dyn") == 0)
+	c := tlcp.VerifStreamConn(&mem{}, kindNum(kind), hx.KVInt(desc, "dyn") == 0)
 	tlcp.VerifSetTxCounters(c, int64(hx.KVInt(desc, "bs")), int64(hx.KVInt(desc, "ps")))
 	var out []int
 	for i := hx.KVInt(desc, "k"); i > 0; i-- {
@@ -208,35 +343,10 @@ func execMps(desc string) string {
 	return fmt.Sprintf("mp=%s ps=%d", showInts(out), ps)
 }
 
-func execLoop(desc string) string {
-	kind, _ := hx.KV(desc, "kind")
-	k := kindNum(kind)
-	dynOff := hx.KVInt(desc, "dyn") == 0
-	sizesS, _ := hx.KV(desc, "w")
-	segS, _ := hx.KV(desc, "seg")
-	bufS, _ := hx.KV(desc, "bufs")
-	sizes := parseInts(sizesS)
-	seed := hx.KVInt(desc, "seed")
-	rec := &recorder{}
-	snd := tlcp.VerifStreamConn(rec, k, dynOff)
-	tlcp.VerifSetTxCounters(snd, int64(hx.KVInt(desc, "bs")), int64(hx.KVInt(desc, "ps")))
-	var ns []int
-	total := 0
-	for j, n := range sizes {
-		m, err := snd.Write(pattern(seed, j, n))
-		if err != nil {
-			m = -1 - m
-		}
-		ns = append(ns, m)
-		total += n
-	}
-	if hx.KVInt(desc, "close") == 1 {
-		snd.CloseWrite()
-	}
-	wire := rec.all()
-	// plaintext length of every record: a second receiver with a buffer no record can fill
+// plainLens: plaintext length of every record of a wire image: a receiver with a buffer no record can fill
+func plainLens(wire []byte, k int) []int {
 	var pl []int
-	tap := tlcp.VerifStreamConn(&chunked{chunks: chunkBy(nil, wire)}, k, true)
+	tap := tlcp.VerifStreamConn(&mem{chunks: chunkBy(nil, wire), ended: true}, k, true)
 	for i := 0; i < len(wire)/5+2; i++ {
 		b := make([]byte, 1<<16)
 		n, err := tap.Read(b)
@@ -247,9 +357,69 @@ func execLoop(desc string) string {
 			break
 		}
 	}
-	rcv := tlcp.VerifStreamConn(&chunked{chunks: chunkBy(parseInts(segS), wire)}, k, true)
-	rd, data := readLoop(rcv, parseInts(bufS), total)
-	return fmt.Sprintf("n=%s recs=%s pl=%s reads=%s data=%s", showInts(ns), showInts(recordLens(wire)), showInts(pl), rd, hx.Hex(data))
+	return pl
+}
+
+func writeAll(c *tlcp.Conn, seed int, sizes []int) (ns []int, total int) {
+	for j, n := range sizes {
+		m, err := c.Write(pattern(seed, j, n))
+		if err != nil {
+			m = -1 - m
+		}
+		ns = append(ns, m)
+		total += n
+	}
+	return
+}
+
+func execLoop(desc string) string {
+	kind, _ := hx.KV(desc, "kind")
+	k := kindNum(kind)
+	dynOff := hx.KVInt(desc, "dyn") == 0
+	sizesS, _ := hx.KV(desc, "w")
+	segS, _ := hx.KV(desc, "seg")
+	bufS, _ := hx.KV(desc, "bufs")
+	seed := hx.KVInt(desc, "seed")
+	eofLast := hx.KVInt(desc, "eof") == 1
+	last := hx.KVInt(desc, "last")
+	hc := hx.KVInt(desc, "hc") == 1
+	ta := &mem{}
+	snd := tlcp.VerifStreamConn(ta, k, dynOff)
+	tlcp.VerifSetTxCounters(snd, int64(hx.KVInt(desc, "bs")), int64(hx.KVInt(desc, "ps")))
+	ns, total := writeAll(snd, seed, parseInts(sizesS))
+	if hx.KVInt(desc, "close") == 1 || hc {
+		snd.CloseWrite()
+	}
+	wire := ta.all()
+	pl := plainLens(wire, k)
+	if !hc {
+		rcv := tlcp.VerifStreamConn(&mem{chunks: chunksOf(parseInts(segS), last, wire), ended: true, eofLast: eofLast}, k, true)
+		rd, data := readLoop(rcv, parseInts(bufS), total)
+		return fmt.Sprintf("n=%s recs=%s pl=%s reads=%s data=%s", showInts(ns), showInts(recordLens(wire)), showInts(pl), rd, hx.Hex(data))
+	}
+	// half-close: the peer reads the request to end-of-stream (its transport has not ended), answers and
+	// closes; the first writer, whose write side is shut down, reads the response
+	seg2S, ok := hx.KV(desc, "seg2")
+	if !ok {
+		seg2S = segS
+	}
+	buf2S, ok := hx.KV(desc, "bufs2")
+	if !ok {
+		buf2S = bufS
+	}
+	w2S, _ := hx.KV(desc, "w2")
+	tb := &mem{chunks: chunkBy(parseInts(segS), wire)}
+	peer := tlcp.VerifStreamConn(tb, k, dynOff)
+	rd, data := readLoop(peer, parseInts(bufS), total)
+	ns2, total2 := writeAll(peer, seed+1, parseInts(w2S))
+	peer.Close()
+	wire2 := tb.all()
+	pl2 := plainLens(wire2, k)
+	ta.chunks, ta.ended, ta.eofLast = chunksOf(parseInts(seg2S), last, wire2), true, eofLast
+	rd2, data2 := readLoop(snd, parseInts(buf2S), total2)
+	return fmt.Sprintf("n=%s recs=%s pl=%s reads=%s data=%s n2=%s recs2=%s pl2=%s reads2=%s data2=%s",
+		showInts(ns), showInts(recordLens(wire)), showInts(pl), rd, hx.Hex(data),
+		showInts(ns2), showInts(recordLens(wire2)), showInts(pl2), rd2, hx.Hex(data2))
 }
 
 var suites = map[string]uint16{
@@ -306,11 +476,15 @@ func execE2E(desc string) string {
 	ce, se := pair.StreamPipe()
 	defer ce.Close()
 	defer se.Close()
-	c, s := tlcp.Client(ce, ccfg), tlcp.Server(se, scfg)
-	w, r, we, re := c, s, ce, se
+	ct, st := wrap(ce), wrap(se)
+	c, s := tlcp.Client(ct, ccfg), tlcp.Server(st, scfg)
+	w, r, we, re, wt, rt := c, s, ce, se, ct, st
 	if s2c {
-		w, r, we, re = s, c, se, ce
+		w, r, we, re, wt, rt = s, c, se, ce, st, ct
 	}
+	eofLast := hx.KVInt(desc, "eof") == 1
+	last := hx.KVInt(desc, "last")
+	hc := hx.KVInt(desc, "hc") == 1 && !gated
 	// the writer's transport: from its ChangeCipherSpec on, everything is kept back
 	var held []byte
 	holding := false
@@ -326,21 +500,6 @@ func execE2E(desc string) string {
 	}
 	// the reader's transport: once armed, one Read returns the next chunk of `seg`
 	seg := parseInts(segS)
-	if len(seg) == 0 {
-		seg = []int{512}
-	}
-	var mu sync.Mutex
-	armed, i := false, 0
-	re.MaxRead = func(avail int) int {
-		mu.Lock()
-		defer mu.Unlock()
-		if !armed {
-			return avail
-		}
-		v := seg[i%len(seg)]
-		i++
-		return v
-	}
 	watchdog := time.AfterFunc(hsTimeout, func() { ce.Close(); se.Close() })
 	defer watchdog.Stop()
 	rdone := make(chan error, 1)
@@ -359,34 +518,36 @@ func execE2E(desc string) string {
 	pre := recordLens(held)
 	bs0, ps0 := tlcp.VerifTxCounters(w)
 	before := len(we.Sent)
-	var ns []int
-	total := 0
-	for j, n := range sizes {
-		m, err := w.Write(pattern(seed, j, n))
-		if err != nil {
-			m = -1 - m
-		}
-		ns = append(ns, m)
-		total += n
-	}
-	closing := hx.KVInt(desc, "close") == 1
-	if closing && gated {
-		// the close-notify joins the kept-back bytes; the transport ends after they are delivered
+	ns, total := writeAll(w, seed, sizes)
+	closing := hx.KVInt(desc, "close") == 1 || hc
+	if closing && (gated || hc) {
+		// gate: the close-notify joins the kept-back bytes; the transport ends after they are delivered
+		// half-close: only the write direction is shut down
 		w.CloseWrite()
 	} else if closing {
 		w.Close()
 	}
-	var recs []int
-	for _, wr := range we.Sent[before:] {
-		recs = append(recs, recordLens(wr)...)
+	sentSince := func(e *pair.StreamEnd, from int) (recs []int, bytes int) {
+		for _, wr := range e.Sent[from:] {
+			recs = append(recs, recordLens(wr)...)
+			bytes += len(wr)
+		}
+		return
 	}
-	mu.Lock()
-	armed = true
-	mu.Unlock()
+	recs, sent := sentSince(we, before)
+	if gated {
+		sent = len(held)
+	}
+	if hc {
+		// the request's transport does not end
+		rt.arm(seg, sent, 0, false)
+	} else {
+		rt.arm(seg, sent, last, eofLast)
+	}
 	if gated {
 		we.Inject(held)
 	}
-	if !closing || gated {
+	if (!closing || gated) && !hc {
 		we.CloseWriteRaw()
 	}
 	hs := "-"
@@ -395,7 +556,29 @@ func execE2E(desc string) string {
 		hs = endClass(<-rdone)
 	}
 	rd, data := readLoop(r, parseInts(bufS), total)
-	return fmt.Sprintf("bs0=%d ps0=%d pre=%s hs=%s n=%s recs=%s pl=? reads=%s data=%s", bs0, ps0, showInts(pre), hs, showInts(ns), showInts(recs), rd, hx.Hex(data))
+	out := fmt.Sprintf("bs0=%d ps0=%d pre=%s hs=%s n=%s recs=%s pl=? reads=%s data=%s", bs0, ps0, showInts(pre), hs, showInts(ns), showInts(recs), rd, hx.Hex(data))
+	if !hc {
+		return out
+	}
+	// half-close: the peer has read the request to end-of-stream; it answers and closes, and the side whose
+	// write direction is shut down reads the response
+	seg2S, ok := hx.KV(desc, "seg2")
+	if !ok {
+		seg2S = segS
+	}
+	buf2S, ok := hx.KV(desc, "bufs2")
+	if !ok {
+		buf2S = bufS
+	}
+	w2S, _ := hx.KV(desc, "w2")
+	bs2, ps2 := tlcp.VerifTxCounters(r)
+	before2 := len(re.Sent)
+	ns2, total2 := writeAll(r, seed+1, parseInts(w2S))
+	r.Close()
+	recs2, sent2 := sentSince(re, before2)
+	wt.arm(parseInts(seg2S), sent2, last, eofLast)
+	rd2, data2 := readLoop(w, parseInts(buf2S), total2)
+	return out + fmt.Sprintf(" bs2=%d ps2=%d n2=%s recs2=%s pl2=? reads2=%s data2=%s", bs2, ps2, showInts(ns2), showInts(recs2), rd2, hx.Hex(data2))
 }
 
 func execute(desc string) string {
@@ -421,7 +604,7 @@ func execute(desc string) string {
 
 // sizes at which the record split changes: partial sums of the ramp the real code reports
 func rampBoundaries(kind string) []int {
-	c := tlcp.VerifStreamConn(&recorder{}, kindNum(kind), false)
+	c := tlcp.VerifStreamConn(&mem{}, kindNum(kind), false)
 	var out []int
 	sum := 0
 	for sum < 70000 {
@@ -439,6 +622,26 @@ func rep(n, k int) string {
 	return strings.Join(ss, ",")
 }
 
+// randMode draws the transport mode of a random case: nothing (half of the cases), end-of-stream with the
+// last chunk, a chosen last chunk, a half-close with a random response
+func randMode(r *hx.Rand, hcOK bool) string {
+	out := ""
+	switch r.Intn(6) {
+	case 0, 1:
+		out = " eof=1"
+	case 2:
+		out = fmt.Sprintf(" eof=%d last=%d", r.Intn(2), 1+r.Intn(hx.Pick(r, []int{8, 64, 512})))
+	}
+	if hcOK && r.Intn(4) == 0 {
+		var ws []int
+		for j := r.Intn(4); j >= 0; j-- {
+			ws = append(ws, r.Intn(hx.Pick(r, []int{10, 1300, 4000, 20000})))
+		}
+		out = fmt.Sprintf(" hc=1 w2=%s seg2=%d,%d bufs2=%d,%d", showInts(ws), 64+r.Intn(448), 1+r.Intn(512), 50+r.Intn(3000), 50+r.Intn(20000)) + out
+	}
+	return strings.Replace(out, " eof=0", "", 1)
+}
+
 var segPats = []string{"1", "2", "3,5,7", "5", "512", "13,1,511", "6,4", "100"}
 var bufPats = []string{"1", "2", "7", "16384", "65536", "1,2,3,5,8,13,21", "1024", "16383,1"}
 
@@ -454,6 +657,9 @@ func main() {
 		return
 	}
 	rng := hx.NewRand(o.Seed)
+	// the transport-mode tokens (eof, last, hc) of the random cases come from a stream of their own, so
+	// that the rest of every random case is what it was before these modes existed
+	rng2 := hx.NewRand(o.Seed + 7919)
 	thorough := o.Tier == "thorough"
 	kinds := []string{"gcm", "cbc"}
 
@@ -536,6 +742,49 @@ func main() {
 				emit(fmt.Sprintf("ph=loop kind=%s dyn=1 bs=1285 ps=0 w=%d seed=%d close=1 seg=509,3 bufs=16384,1", kind, bulk, rng.Intn(256)))
 			}
 		}
+		// the end of the transport's stream arrives TOGETHER with the last chunk (n > 0 and io.EOF from one
+		// transport Read): under every segmentation x buffer pattern; with the last chunk starting at every
+		// position of the stream's tail (inside the close-notify, at its first byte, inside and across the
+		// data records before it), closed by a close-notify or just ended; and the same cuts without it
+		for _, kind := range kinds {
+			for i, seg := range segPats {
+				for j, bufs := range bufPats {
+					emit(fmt.Sprintf("ph=loop kind=%s dyn=1 bs=0 ps=0 w=0,1,300,0,1500,7 seed=%d close=%d seg=%s bufs=%s eof=1", kind, rng2.Intn(256), (i+j)%2, seg, bufs))
+				}
+			}
+			for l := 1; l <= 260; l++ {
+				if !thorough && l > 120 && l%4 != 0 {
+					continue
+				}
+				emit(fmt.Sprintf("ph=loop kind=%s dyn=1 bs=0 ps=0 w=9,40,3 seed=%d close=%d seg=%s bufs=%s eof=1 last=%d", kind, rng2.Intn(256), l%2,
+					hx.Pick(rng2, []string{"512", "7", "1", "100"}), hx.Pick(rng2, bufPats), l))
+				if l%3 == 0 {
+					emit(fmt.Sprintf("ph=loop kind=%s dyn=1 bs=0 ps=0 w=9,40,3 seed=%d close=%d seg=512 bufs=%s last=%d", kind, rng2.Intn(256), 1-l%2, hx.Pick(rng2, bufPats), l))
+				}
+			}
+			emit(fmt.Sprintf("ph=loop kind=%s dyn=1 bs=0 ps=0 w=%d seed=%d close=1 seg=512 bufs=65536 eof=1", kind, 3*16384+7, rng2.Intn(256)))
+			emit(fmt.Sprintf("ph=loop kind=%s dyn=0 bs=0 ps=0 w=16385,1 seed=%d close=1 seg=509,3 bufs=16384,1 eof=1 last=1", kind, rng2.Intn(256)))
+			emit(fmt.Sprintf("ph=loop kind=%s dyn=1 bs=0 ps=0 w=%s,40000 seed=%d close=0 seg=512 bufs=4096 eof=1 last=512", kind, rep(1, 12), rng2.Intn(256)))
+		}
+		// half-close: the first writer sends a request, shuts its write direction down (CloseWrite) and
+		// keeps reading; the peer reads to end-of-stream, answers and closes. Responses from nothing to
+		// several full records, under every segmentation x buffer pattern, dynamic sizing on and off
+		for _, kind := range kinds {
+			for i, seg := range segPats {
+				for j, bufs := range bufPats {
+					emit(fmt.Sprintf("ph=loop kind=%s dyn=1 bs=0 ps=0 w=10,20 seed=%d close=1 seg=%s bufs=%s hc=1 w2=0,1,300,0,1500,7 seg2=%s bufs2=%s%s", kind, rng2.Intn(256),
+						segPats[(i+3)%len(segPats)], bufPats[(j+5)%len(bufPats)], seg, bufs, []string{"", " eof=1"}[(i+j)%2]))
+				}
+			}
+			for _, dyn := range []int{1, 0} {
+				for _, w2 := range []string{"-", "0", "1", "1000", "16384", "16385", "50000", strconv.Itoa(3*16384 + 7), "700,2,49159", rep(1, 12) + ",40000"} {
+					emit(fmt.Sprintf("ph=loop kind=%s dyn=%d bs=0 ps=0 w=24 seed=%d close=1 seg=512 bufs=4096 hc=1 w2=%s seg2=%s bufs2=%s", kind, dyn, rng2.Intn(256), w2,
+						hx.Pick(rng2, []string{"512", "100", "511,1", "64,448"}), hx.Pick(rng2, []string{"16384", "65536", "1024", "4096,1", "3000"})))
+				}
+				emit(fmt.Sprintf("ph=loop kind=%s dyn=%d bs=0 ps=0 w=- seed=%d close=1 seg=512 bufs=4096 hc=1 w2=5,5000 seg2=512 bufs2=4096", kind, dyn, rng2.Intn(256)))
+				emit(fmt.Sprintf("ph=loop kind=%s dyn=%d bs=131071 ps=999 w=2500,20000 seed=%d close=1 seg=512 bufs=4096 hc=1 w2=2500,1,2500,20000 seg2=512 bufs2=4096 eof=1 last=7", kind, dyn, rng2.Intn(256)))
+			}
+		}
 		// random
 		n := 300 * o.Scale
 		if thorough {
@@ -579,7 +828,7 @@ func main() {
 				bs, ps = rng.Intn(140000), rng.Intn(1010)
 			}
 			emit(fmt.Sprintf("ph=loop kind=%s dyn=%d bs=%d ps=%d w=%s seed=%d close=%d seg=%s bufs=%s", hx.Pick(rng, kinds), rng.Intn(4)/3^1,
-				bs, ps, showInts(ws), rng.Intn(256), rng.Intn(2), strings.Join(seg, ","), strings.Join(bufs, ",")))
+				bs, ps, showInts(ws), rng.Intn(256), rng.Intn(2), strings.Join(seg, ","), strings.Join(bufs, ",")) + randMode(rng2, true))
 		}
 	}
 
@@ -596,9 +845,12 @@ func main() {
 		}
 		plain := []mode{{0, "c2s", 0}, {0, "s2c", 0}, {1, "c2s", 0}, {1, "s2c", 0}}
 		gated := []mode{{1, "c2s", 1}, {0, "s2c", 1}}
+		e2ex := func(r *hx.Rand, su string, m mode, dyn int, w string, cl int, seg, bufs, extra string) {
+			emit(fmt.Sprintf("ph=e2e suite=%s kind=%s dyn=%d res=%d dir=%s gate=%d w=%s seed=%d close=%d seg=%s bufs=%s%s",
+				su, kindOf(su), dyn, m.res, m.dir, m.gate, w, r.Intn(256), cl, seg, bufs, extra))
+		}
 		e2e := func(su string, m mode, dyn int, w string, cl int, seg, bufs string) {
-			emit(fmt.Sprintf("ph=e2e suite=%s kind=%s dyn=%d res=%d dir=%s gate=%d w=%s seed=%d close=%d seg=%s bufs=%s",
-				su, kindOf(su), dyn, m.res, m.dir, m.gate, w, rng.Intn(256), cl, seg, bufs))
+			e2ex(rng, su, m, dyn, w, cl, seg, bufs, "")
 		}
 		for _, su := range names {
 			for _, dyn := range []int{1, 0} {
@@ -673,6 +925,48 @@ func main() {
 				e2e(su, plain[0], 1, fmt.Sprintf("%s,%d", rep(1, k), 3*16384+7), 1, "512", "65536")
 			}
 		}
+		// the end of the transport's stream arrives together with the last chunk, on real connections: every
+		// kind of connection and direction, closed or just ended; across the handshake boundary; and with the
+		// last chunk starting at every position of the tail
+		for _, su := range names {
+			for i, m := range plain {
+				e2ex(rng2, su, m, 1, "0,1,1200,5000,16385,3", 1, "7,512,1", "1000,1,16384", " eof=1")
+				e2ex(rng2, su, m, i%2, "10,20,30", 0, segPats[i], "1,7", " eof=1")
+				e2ex(rng2, su, m, 1, "700,2,20000", 1, "512", "65536", " eof=1 last=1")
+			}
+			if !thorough && strings.HasPrefix(su, "ecdhe") {
+				continue
+			}
+			for _, m := range gated {
+				for i, seg := range segPats {
+					e2ex(rng2, su, m, 1, "0,1,300,0,1500,7", i%2, seg, bufPats[(i+3)%len(bufPats)], " eof=1")
+				}
+				for l := 1; l <= 200; l += 3 {
+					e2ex(rng2, su, m, 1, "9,40,3", l%2, hx.Pick(rng2, []string{"512", "7", "60,1"}), hx.Pick(rng2, bufPats), fmt.Sprintf(" eof=1 last=%d", l))
+				}
+			}
+			for l := 1; l <= 140; l++ {
+				if thorough || l%2 == 1 {
+					e2ex(rng2, su, plain[l%4], 1, "9,40,3", l%2, hx.Pick(rng2, []string{"512", "7", "1"}), hx.Pick(rng2, bufPats), fmt.Sprintf(" eof=1 last=%d", l))
+				}
+			}
+		}
+		// half-close on real connections: request, CloseWrite, the peer reads to end-of-stream, answers (from
+		// one byte to several full records) and closes; the half-closed side reads the response. Either side
+		// half-closing, full and resumed handshakes, all suites
+		for _, su := range names {
+			for i, m := range plain {
+				for j, w2 := range []string{"1", "1000", "50000", "0,1,1200,5000,16385,3", strconv.Itoa(3*16384 + 7)} {
+					if !thorough && j >= 3 && (i+j)%2 == 1 {
+						continue
+					}
+					e2ex(rng2, su, m, (i+j+1)%2, "24", 1, "512", "100", fmt.Sprintf(" hc=1 w2=%s seg2=%s bufs2=%s%s", w2,
+						hx.Pick(rng2, []string{"512", "100", "511,1", "64,448"}), hx.Pick(rng2, []string{"3000", "65536", "1024", "4096,1"}), []string{"", " eof=1"}[j%2]))
+				}
+				e2ex(rng2, su, m, 1, "0,1,300", 1, segPats[i], bufPats[i], fmt.Sprintf(" hc=1 w2=0,1,300,0,1500,7 seg2=%s bufs2=%s", segPats[(i+4)%len(segPats)], bufPats[(i+2)%len(bufPats)]))
+				e2ex(rng2, su, m, 1, "-", 1, "512", "64", " hc=1 w2=5,5000 seg2=1 bufs2=4096 eof=1 last=3")
+			}
+		}
 		n := 24 * o.Scale
 		if thorough {
 			n = 600 * o.Scale
@@ -684,9 +978,10 @@ func main() {
 			for j := rng.Intn(5); j >= 0; j-- {
 				ws = append(ws, rng.Intn(hx.Pick(rng, []int{10, 1300, 4000, 20000})))
 			}
-			e2e(su, hx.Pick(rng, all), rng.Intn(2), showInts(ws), rng.Intn(2),
+			m := hx.Pick(rng, all)
+			e2ex(rng, su, m, rng.Intn(2), showInts(ws), rng.Intn(2),
 				fmt.Sprintf("%d,%d", hx.Pick(rng, []int{1 + rng.Intn(100), 64 + rng.Intn(448)}), 1+rng.Intn(512)),
-				fmt.Sprintf("%d,%d", 50+rng.Intn(3000), 50+rng.Intn(20000)))
+				fmt.Sprintf("%d,%d", 50+rng.Intn(3000), 50+rng.Intn(20000)), randMode(rng2, m.gate == 0))
 		}
 	}
 }
